@@ -342,6 +342,9 @@ func (c *SpecCtx) eval(e ast.Expr) *Val {
 		v := c.eval(e.X)
 		switch e.Op {
 		case token.NOT:
+			if v.K == kScalar && v.T != nil && v.T.sort == SInt {
+				return boolV(Eq(v.T, IntLit(0))) // a recorded boolean read as an integer (see binary)
+			}
 			return boolV(Not(v.T))
 		case token.SUB:
 			return intV(Neg(v.T))
@@ -436,20 +439,28 @@ func (c *SpecCtx) indexVal(base, idx *Val) *Val {
 
 func (c *SpecCtx) binary(e *ast.BinaryExpr) *Val {
 	x := c.x
+	// a recorded boolean (lastarg / lastret of a bool) that stands for "no such call on this path"
+	// or for a callee's ghost value is an untyped integer constant: read it as "non-zero"
+	asBool := func(v *Val) *Val {
+		if v != nil && v.K == kScalar && v.T != nil && v.T.sort == SInt {
+			return boolV(Neq(v.T, IntLit(0)))
+		}
+		return v
+	}
 	switch e.Op {
 	case token.LAND:
-		a := c.eval(e.X)
+		a := asBool(c.eval(e.X))
 		if a.T.isFalse() {
 			return a
 		}
-		b := c.eval(e.Y)
+		b := asBool(c.eval(e.Y))
 		return boolV(And(a.T, b.T))
 	case token.LOR:
-		a := c.eval(e.X)
+		a := asBool(c.eval(e.X))
 		if a.T.isTrue() {
 			return a
 		}
-		b := c.eval(e.Y)
+		b := asBool(c.eval(e.Y))
 		return boolV(Or(a.T, b.T))
 	}
 	a, b := c.eval(e.X), c.eval(e.Y)
@@ -641,11 +652,19 @@ func (c *SpecCtx) call(e *ast.CallExpr) *Val {
 		case "exists":
 			return c.quant(e, false)
 		case "implies":
+			// (a recorded boolean may arrive as an integer constant: non-zero = true, see binary)
+			intAsBool := func(t *Term) *Term {
+				if t != nil && t.sort == SInt {
+					return Neq(t, IntLit(0))
+				}
+				return t
+			}
 			a := c.eval(e.Args[0])
-			if a.T.isFalse() {
+			at := intAsBool(a.T)
+			if at.isFalse() {
 				return boolV(TTrue)
 			}
-			return boolV(Implies(a.T, c.eval(e.Args[1]).T))
+			return boolV(Implies(at, intAsBool(c.eval(e.Args[1]).T)))
 		case "iff":
 			return boolV(Eq(c.eval(e.Args[0]).T, c.eval(e.Args[1]).T))
 		case "ite":
